@@ -316,6 +316,8 @@ def infer_or_gate_from_node(
                 tau_children.append(child)
             else:
                 non_tau_children.append(child)
+        else:
+            non_tau_children.append(child)
 
     if len(tau_children) > 0:
         removed_tau_children = []
